@@ -47,7 +47,7 @@ def loop_over(f, sy):
                 continue
             some = [a[1] for a in sw["arms"] if a[0] == "1"]
             none = [a[1] for a in sw["arms"] if a[0] == "0"]
-            src = iter_source(sy.operand(t["args"][0]))
+            src = iter_source(sy.origin(sy.operand(t["args"][0])))
             out.append((i, src, some[0] if some else None, none[0] if none else sw["otherwise"], t))
     return out
 
